@@ -74,10 +74,23 @@ def _result(da_fn):
         return ("exc", type(e).__name__)
 
 
-def _backend_control(values):
+SUPPORT_LEVELS = ("BASIC", "OUTER", "OUTER_1VECTOR", "VECTORIZED")
+
+
+def _backend_control(values, level="BASIC"):
+    """xarray's own lazy layer over a trivially correct NumPy-backed backend declaring the given indexing support"""
     import xarray as xr
     from xarray.backends import BackendArray
     from xarray.core import indexing
+
+    support = getattr(indexing.IndexingSupport, level)
+
+    def raw(k):
+        if level == "BASIC":
+            return values[k]
+        return indexing.NumpyIndexingAdapter(values)[{"OUTER": indexing.OuterIndexer, "OUTER_1VECTOR": indexing.OuterIndexer,
+                                                      "VECTORIZED": indexing.VectorizedIndexer}[level](k)] \
+            if not all(isinstance(x, (int, np.integer, slice)) for x in k) else values[k]
 
     class NP(BackendArray):
         def __init__(self, a):
@@ -86,8 +99,7 @@ def _backend_control(values):
             self.dtype = a.dtype
 
         def __getitem__(self, key):
-            return indexing.explicit_indexing_adapter(key, self.shape, indexing.IndexingSupport.BASIC,
-                                                      lambda k: self.a[k])
+            return indexing.explicit_indexing_adapter(key, self.shape, support, raw)
 
     return indexing.LazilyIndexedArray(NP(values))
 
@@ -99,7 +111,21 @@ def make_triple(tree, group, expected_values):
     twin = lazy.copy(data=expected_values)
     control = xr.DataArray(xr.Variable(lazy.dims, _backend_control(expected_values), lazy.attrs),
                            coords=lazy.coords, name=lazy.name)
+    # controls at the other support levels are built when a deviation has to be attributed (see compare3)
+    control.attrs = dict(control.attrs)
+    _OTHER_CONTROLS[id(control)] = (lazy, expected_values)
     return lazy, twin, control
+
+
+_OTHER_CONTROLS = {}
+
+
+def _other_controls(control):
+    import xarray as xr
+
+    lazy, values = _OTHER_CONTROLS[id(control)]
+    for level in SUPPORT_LEVELS[1:]:
+        yield level, xr.DataArray(xr.Variable(lazy.dims, _backend_control(values, level), lazy.attrs), coords=lazy.coords, name=lazy.name)
 
 
 def expected_values(im):
@@ -137,10 +163,15 @@ def compare3(lazy, twin, control, sel):
     if a == b:
         return "held", a, b, None
     c = _result(lambda: selections.apply(control, sel))
-    if c == b:
-        return "violation", a, b, c
     if a == c:
         return "upstream", a, b, c
+    # the package may declare more than BASIC support: a deviation that a trivially correct backend declaring OUTER /
+    # OUTER_1VECTOR / VECTORIZED support reproduces byte for byte also arises in xarray's layer above any backend
+    if id(control) in _OTHER_CONTROLS:
+        for level, other in _other_controls(control):
+            o = _result(lambda: selections.apply(other, sel))
+            if o == a and o != b:
+                return "upstream", a, b, o
     return "violation", a, b, c
 
 
